@@ -113,6 +113,16 @@ func modelCheck(rep *lib.Report, res *taintrun.Result, tag string) (*taintrun.Gr
 			return d, nil, nil
 		}
 		ms[i] = m
+		if !m.ebe {
+			// EntryBeforeExit fails in the model run: the reported set depends on the traversal
+			// order (flows_order_independent needs the hypothesis); the real order (Go map
+			// iteration) may legitimately report a different subset. Counted, not compared.
+			rep.Count("M6:skipped-order-dependent-entry")
+			for _, s := range m.flows {
+				modelPairs[instrPair{d.Entries[i].Instr, df.Instr(d.Nodes[s])}] = true
+			}
+			continue
+		}
 		for _, s := range m.flows {
 			p := instrPair{d.Entries[i].Instr, df.Instr(d.Nodes[s])}
 			modelPairs[p] = true
@@ -161,7 +171,7 @@ var corpus = []corpusCase{
 	{"F3", "F02_F03_builtins", [][2]int{{15, 17}}, "", false},
 	{"F2", "F02_F03_builtins", [][2]int{{18, 19}}, "", false},
 	{"C01a", "C01a_closure_two_bound_vars", [][2]int{{16, 20}, {16, 21}}, "ebe", false},
-	{"C01b", "C01b_fs_access_path_cut", [][2]int{{23, 26}}, "path", true},
+	{"C01b", "C01b_fs_access_path_cut", [][2]int{{22, 25}}, "path", true},
 }
 
 func runCorpus(rep *lib.Report) {
